@@ -117,7 +117,7 @@ REG_LEMMAS_THOROUGH = [
 ]
 
 prop("C04", bounds=PROG_BOUNDS, outside=PROG_OUT,
-     harnesses=REG_LEMMAS_QUICK + REG_LEMMAS_THOROUGH + [FREECYCLE, OVERFLOW,
+     harnesses=REG_LEMMAS_QUICK + REG_LEMMAS_THOROUGH + [FREECYCLE, OVERFLOW, ALLOCFREE_REOPEN,
                H("txfile.VerifRegionRoundTrip", "free-list entries survive serialization (a wrongly decoded region would make live pages allocatable after reopen)", "id<2^55, count in [1,2^32)"),
                H("txfile.VerifProgAbort", "after Rollback / Close / a Commit that fails with an injected I/O error, follow-up allocations own their pages", "nops=2, pre=1",
                  quick={"params": {"nops": 2, "pre": 1}}, thorough={"params": {"nops": 2, "pre": 2}, "max_paths": 300000, "budget": "1200s"})] + variants("txfile.VerifProgOwn", "every id returned by Alloc/AllocN is >= 2, not live, not freed-but-committed, not internal; ownership partition after every commit",
@@ -178,7 +178,12 @@ prop("C01", bounds=CRASH_BOUNDS,
      harnesses=[H("txfile.VerifWriterBigBatch", "the data sync of a commit covers every queued page write, also beyond the writer's batch size (1024)", "1025 / 1525 / 2025 messages"),
                 H("txfile.VerifWriterOrder", "per page the last scheduled write is the last one issued (sort ties nondeterministic); syncs separate what was scheduled before/after", "3 messages, 2 page ids",
                   thorough={"params": {"msgs": 4, "ids": 2, "preempt": 1}, "max_paths": 300000, "budget": "1200s"}),
-                OVERFLOW] + variants("txfile.VerifCrash", "recovery by the real Open code after a crash at any I/O boundary yields S or the complete S' (only once Commit was entered), recovered file fully operational",
+                OVERFLOW,
+                H("txfile.VerifFault", "a Commit that fails with an I/O error, further transactions, then a restart: the reopened file shows the last committed state (no mixture with the failed attempt, whose freed pages must not be re-used)",
+                  "nops=1 quick / 2 thorough", quick={"params": {"nops": 1}}, thorough={"params": {"nops": 2}, "max_paths": 300000, "budget": "1500s"}),
+                H("txfile.VerifRegionRoundTrip", "recovery reads the free lists back exactly (a wrongly decoded region would let later transactions overwrite recovered pages)", "id<2^55, count in [1,2^32)"),
+                H("txfile.VerifFreelistSerialize", "multi-page free list round trip", "<= 2 meta + 4 data regions", thorough={"params": {"meta": 3, "data": 5}, "max_paths": 200000, "budget": "1200s"}),
+                ] + variants("txfile.VerifCrash", "recovery by the real Open code after a crash at any I/O boundary yields S or the complete S' (only once Commit was entered), recovered file fully operational",
                         {"nops": 1, "pre": 1}, {"nops": 2, "pre": 1, "fullmask": 1}, vs=(0, 1, 4), quick_vs=(0, 4)))
 
 # ------------------------------------------------------------------ C08
